@@ -160,6 +160,13 @@ func runCase(r *hx.Run, sub uint64, ops []string) {
 			if (kind == "pq" || kind == "gh") && len(f) > 3 {
 				r.Count("cmpkind:" + kind + "." + f[3])
 			}
+			if (kind == "shrink" || kind == "rmap") && len(f) > 2 {
+				ratio := f[2]
+				if len(f) > 4 {
+					ratio += "/" + f[3]
+				}
+				r.Count("cfg:" + kind + ".ratio=" + ratio)
+			}
 			if (kind == "queue" || kind == "ring") && len(f) > 2 {
 				r.Count("cfg:" + kind + ".cap=" + f[2])
 			}
